@@ -126,7 +126,8 @@ def generate(rng, tier):
         elif k == "precision":
             op = {"op": "precision", "bits": rng.choice([32, 64])}
         elif k == "observe":
-            op = {"op": "observe", "what": rng.choice(["pvr", "pvr", "strehl", "psd", "support", "str", "slope"])}
+            op = {"op": "observe", "what": rng.choice(["pvr", "pvr", "strehl", "psd", "support", "str", "slope",
+                                                       "exact_x", "exact_y", "exact_xy", "exact_polar"])}
         elif k == "poison":
             # a step that is given nonsense and (today) fails: whatever it leaves behind must be coherent
             op = {"op": "poison", "kind": rng.choice(["pad_smaller", "mask_badshape", "filter_badtype", "pad_both"])}
@@ -329,6 +330,14 @@ def execute(plan):
                         str(ifg)
                     elif what == "slope":
                         ifg.slope()
+                    elif what == "exact_x":
+                        ifg.exact_x(0.0), ifg.exact_x(np.array([0.0, 0.25 * float(ifg.dx or 1.0)]))
+                    elif what == "exact_y":
+                        ifg.exact_y(0.0), ifg.exact_y(np.array([0.0, 0.25 * float(ifg.dx or 1.0)]))
+                    elif what == "exact_xy":
+                        ifg.exact_xy(0.0, 0.0)
+                    elif what == "exact_polar":
+                        ifg.exact_polar(0.0, 0.0)
                 except Exception:
                     pass
             elif k == "copy":
@@ -563,6 +572,8 @@ def execute(plan):
                     _power_refit(np, ifg, data_now, mdl, i, k, bits, viol)
             if k == "filter":
                 bump(probes, "filter_applied")
+        if k in ("latcal", "strip_latcal"):
+            mdl.power_readings = None          # a routine may tie its choice of radius to the calibration state
         _invariants(np, ifg, mdl, i, k, bits, viol)
         if mdl.valid.any():
             mdl.scale = max(mdl.scale, float(np.max(np.abs(ifg.data[mdl.valid]))) if ifg.data.shape == mdl.valid.shape else mdl.scale)
@@ -654,6 +665,7 @@ def _power_refit(np, ifg, after, mdl, i, k, bits, viol):
     for b in bases:
         span = float(b.max() - b.min())
         if not span > 1e-9 * max(float(np.abs(b).max()), 1e-300):
+            left.append(None)
             continue
         bc = (b - b.mean()) / span
         A = np.stack([bc, np.ones_like(bc)], axis=1)
@@ -661,8 +673,23 @@ def _power_refit(np, ifg, after, mdl, i, k, bits, viol):
         left.append(abs(float(cf[0])))            # peak-to-valley of the power term that is left
     from prysm.conf import config as _cfg
     lowp = _cfg.precision == np.float32 or after.dtype == np.float32
-    if left and not min(left) <= (1e-3 if lowp else 1e-7) * mdl.scale:
-        viol("power-refit", i, k, bits, left=min(left), scale=mdl.scale)
+    tol = (1e-3 if lowp else 1e-7) * mdl.scale
+    got = [x for x in left if x is not None]
+    if got and not min(got) <= tol:
+        viol("power-refit", i, k, bits, left=min(got), scale=mdl.scale)
+        return
+    # Either radius is a fair reading, but it is ONE routine: which reading it follows must not depend on
+    # what happens to be cached.  Readings that a step clearly did not follow (ten times the allowance
+    # left) are struck from the set the history has been consistent with so far.
+    if len(left) == 2 and None not in left:
+        ok = {nm for nm, x in zip(("normalised", "physical"), left) if x <= 10 * tol}
+        prev = getattr(mdl, "power_readings", None)
+        now = ok if prev is None else (prev & ok)
+        if prev is not None and not now:
+            viol("power-refit", i, k, bits, note="the radius in which power is measured changed during the history",
+                 earlier=sorted(prev), this_step=sorted(ok), scale=mdl.scale)
+        else:
+            mdl.power_readings = now
 
 
 def _tilt_plane(np, ifg, before, after, mdl, i, k, bits, viol):
